@@ -894,6 +894,12 @@ static void print_scanner_error(YR_SCANNER* scanner, int error)
   YR_RULE* rule = yr_scanner_last_error_rule(scanner);
   YR_STRING* string = yr_scanner_last_error_string(scanner);
 
+  // scan_file() reports a file that can't be opened without ever calling the
+  // scanner, so whatever rule or string the scanner remembers belongs to some
+  // earlier file scanned by this thread.
+  if (error == ERROR_COULD_NOT_OPEN_FILE)
+    rule = NULL;
+
   if (rule != NULL && string != NULL)
   {
     fprintf(
